@@ -3,7 +3,7 @@ use crate::gen::{mutate, G};
 use crate::gramspec::spec_document;
 use crate::pp::*;
 use crate::util::*;
-use apollo_parser::cst::CstNode;
+
 
 fn impl_definitions(src: &str) -> Vec<(String, Option<String>)> {
     let tree = apollo_parser::Parser::new(src).parse();
